@@ -66,6 +66,10 @@ func VerifyFunc(P *Program, fn *ssa.Function, spec *FuncSpec, prop string) (ex *
 			}
 		}
 	}
+	// receiver of a method: the scalar and integer-slice fields of the struct it points to, for replay
+	if fn.Signature.Recv() != nil && len(fn.Params) > 0 {
+		ex.registerRecvInputs(st, fn.Params[0], st.regs[fn.Params[0]])
+	}
 	for _, fv := range fn.FreeVars {
 		v := ex.namedVal(fv.Type(), "free "+fv.Name())
 		st.regs[fv] = v
@@ -1194,4 +1198,83 @@ func (ex *Exec) noteOnce(w string) {
 		}
 	}
 	ex.warnings = append(ex.warnings, w)
+}
+
+// registerRecvInputs adds to the replay inputs the fields of a pointer-to-struct receiver that a replay can
+// reconstruct: integers, booleans and slices of integers or of a type parameter (instantiated with int in the
+// replay).  recvShape records what was registered; nil means "cannot be reconstructed".
+func (ex *Exec) registerRecvInputs(st *State, p *ssa.Parameter, v *Val) {
+	ex.recvShape = nil
+	pt, ok := ex.env.resolve(p.Type()).Underlying().(*types.Pointer)
+	if !ok || v == nil || v.T == nil {
+		return
+	}
+	base := ex.env.resolve(pt.Elem())
+	n, ok := types.Unalias(base).(*types.Named)
+	if !ok || n.Obj().Pkg() == nil || !strings.HasPrefix(n.Obj().Pkg().Path(), modulePath) {
+		return
+	}
+	stru, ok := n.Underlying().(*types.Struct)
+	if !ok {
+		return
+	}
+	var shape []recvField
+	add := func(t *Term, name string) {
+		ex.inputs = append(ex.inputs, t)
+		ex.inputNames[t.String()] = name
+	}
+	for i := 0; i < stru.NumFields(); i++ {
+		f := stru.Field(i)
+		ft := ex.env.resolve(f.Type())
+		switch tt := ft.Underlying().(type) {
+		case *types.Basic:
+			if tt.Info()&(types.IsInteger|types.IsBoolean) == 0 {
+				return
+			}
+			l := ex.env.leaves(ft)[0]
+			add(Select(ex.fieldArr(st, base, "."+f.Name(), l.Sort), v.T), "recv ."+f.Name())
+			shape = append(shape, recvField{Name: f.Name(), Kind: "scalar", Type: f.Type()})
+		case *types.Slice:
+			et := ex.env.resolve(tt.Elem())
+			_, _, isInt := intInfo(et)
+			_, isTP := et.(*types.TypeParam)
+			if !isInt && !isTP {
+				return
+			}
+			is := ex.env.IntS()
+			arr := Select(ex.fieldArr(st, base, "."+f.Name()+".arr", SRef), v.T)
+			off := Select(ex.fieldArr(st, base, "."+f.Name()+".off", is), v.T)
+			add(arr, "recv ."+f.Name()+".arr")
+			add(Select(ex.fieldArr(st, base, "."+f.Name()+".len", is), v.T), "recv ."+f.Name()+".len")
+			add(Select(ex.fieldArr(st, base, "."+f.Name()+".cap", is), v.T), "recv ."+f.Name()+".cap")
+			lv := ex.env.leaves(et)[0]
+			for k := int64(0); k < 16; k++ {
+				add(Select(Select(ex.elemArr(st, et, "", lv.Sort), arr), ex.iadd(off, ex.intConst(k))), fmt.Sprintf("recvelem .%s %d", f.Name(), k))
+			}
+			kind := "intslice"
+			if isTP {
+				kind = "tpslice"
+				z := ex.valTerm(ex.zeroVal(et))
+				if z != nil {
+					add(z, "recvzero ."+f.Name())
+				}
+			}
+			shape = append(shape, recvField{Name: f.Name(), Kind: kind, Type: f.Type()})
+		default:
+			if isOpaqueNamed(ft) {
+				// e.g. an embedded sync.Mutex: its zero value will do
+				shape = append(shape, recvField{Name: f.Name(), Kind: "skip", Type: f.Type()})
+				continue
+			}
+			return
+		}
+	}
+	ex.recvShape = shape
+	ex.recvType = n
+}
+
+type recvField struct {
+	Name string
+	Kind string // scalar | intslice | tpslice | skip
+	Type types.Type
 }
